@@ -100,6 +100,22 @@ def idur(x):
     return float(x)
 
 
+def case_cfg(W) -> dict:
+    """interpolator configuration of an ["interp", d, vals, times, cfg?] case:
+    {"interpolator": name, **interpolator_kwargs}; {} = the defaults"""
+    if W[0] == "interp" and len(W) > 4 and W[4]:
+        return dict(W[4])
+    return {}
+
+
+def obj_cfg(w) -> dict:
+    """the same, read from an InterpolatedWaveform object"""
+    kw = {k: v for k, v in w._kwargs.items() if k != "times"}
+    if kw.get("interpolator") == "PchipInterpolator" and len(kw) == 1:
+        return {}
+    return kw
+
+
 def build(W):
     k = W[0]
     if k == "const":
@@ -115,9 +131,10 @@ def build(W):
     if k == "kaiser":
         return KaiserWaveform(pydur(W[1]), W[2], W[3])
     if k == "interp":
-        if W[3] is None:
-            return InterpolatedWaveform(pydur(W[1]), list(W[2]))
-        return InterpolatedWaveform(pydur(W[1]), list(W[2]), times=list(W[3]))
+        kw = dict(case_cfg(W))
+        if W[3] is not None:
+            kw["times"] = list(W[3])
+        return InterpolatedWaveform(pydur(W[1]), list(W[2]), **kw)
     raise ValueError("unknown waveform kind " + str(k))
 
 
@@ -187,13 +204,33 @@ class Env:
         w = np.blackman(d) if kind == 4 else np.kaiser(d, beta)
         self.win[key] = [float(x) for x in w]
 
-    def add_interp(self, d, vals, times):
+    def add_interp(self, d, vals, times, cfg=None):
+        """reference samples for (duration, values, times); the model keys its
+        oracle by these three, the interpolator configuration is carried by
+        the reference itself.  First registration wins: expectations derived
+        from the case are registered before objects the implementation built."""
         key = (int(d), tuple(float(v) for v in vals), None if times is None else tuple(float(t) for t in times))
         if key in self.itp:
             return
-        s = ref_interp(int(d), list(key[1]), None if times is None else list(key[2]))
+        s = ref_interp(int(d), list(key[1]), None if times is None else list(key[2]), cfg or {})
         if s is not None:
             self.itp[key] = [float(x) for x in s]
+
+    def expect_interp(self, W, new_dur=None, factor=None):
+        """what an interpolated waveform described by the case W must be after
+        change_duration(new_dur) / scaling by factor: same times, same
+        interpolator and interpolator kwargs"""
+        if W[0] != "interp":
+            return
+        try:
+            d = dur_int(W[1]) if new_dur is None else dur_int(new_dur)
+            vals = np.array(W[2], dtype=float)
+            if factor is not None:
+                vals = vals * np.array(factor, dtype=float)
+            if d > 0:
+                self.add_interp(d, vals, W[3], case_cfg(W))
+        except Exception:  # noqa: BLE001
+            pass
 
     def add_obj(self, w):
         if isinstance(w, CompositeWaveform):
@@ -204,7 +241,7 @@ class Env:
         elif isinstance(w, KaiserWaveform):
             self.add_win(5, w._duration, w._beta)
         elif isinstance(w, InterpolatedWaveform):
-            self.add_interp(w._duration, w._values, interp_times_param(w))
+            self.add_interp(w._duration, w._values, interp_times_param(w), obj_cfg(w))
 
     def coq(self) -> str:
         wins = coq_list(
@@ -231,13 +268,18 @@ def ref_data_x(d, vals, times):
     return [round(float(t)) for t in ts * (d - 1)]
 
 
-def ref_interp(d, vals, times):
-    """independent reading of InterpolatedWaveform._samples (scipy PCHIP on
-    the rounded data points, then np.round to a range-dependent precision)"""
+def ref_interp(d, vals, times, cfg=None):
+    """independent reading of InterpolatedWaveform._samples (the scipy
+    interpolator named by cfg, default PCHIP, on the rounded data points,
+    then np.round to a range-dependent precision)"""
     h = quiet()
     try:
+        cfg = dict(cfg or {})
+        name = cfg.pop("interpolator", "PchipInterpolator")
+        if name not in ("PchipInterpolator", "interp1d"):
+            return None
         xs = ref_data_x(d, vals, times)
-        f = _interp.PchipInterpolator(np.array(xs, dtype=float), np.array(vals, dtype=float))
+        f = getattr(_interp, name)(np.array(xs, dtype=float), np.array(vals, dtype=float), **cfg)
         s = f(np.arange(d))
         rng = np.max(np.abs(s))
         dec = int(min(np.finfo(s.dtype).precision - np.log10(rng), 9))
@@ -376,6 +418,7 @@ def run_wf_case(case, env: Env, orc: Oracle):
         w = build(case["wf"])
     except Exception as e:  # noqa: BLE001
         return [err_code(e)], None
+    env.expect_interp(case["wf"])
     env.add_obj(w)
     finite = orc.waveform(w, "wf")
     orc.asked_duration(w, case["wf"], "wf")
@@ -418,15 +461,21 @@ def run_wf_case(case, env: Env, orc: Oracle):
                 r = [0, fl(w[slc].as_array(detach=True))]
             elif k in ("mul", "neg", "div"):
                 if k == "mul":
+                    env.expect_interp(case["wf"], factor=float(op[1]))
                     w2 = w * op[1]
                     fac = float(op[1])
                 elif k == "neg":
+                    env.expect_interp(case["wf"], factor=-1.0)
                     w2 = -w
                     fac = -1.0
                 else:
+                    if float(op[1]) != 0.0:
+                        env.expect_interp(case["wf"], factor=1 / np.float64(op[1]))
                     w2 = w / op[1]
                     fac = None
                 env.add_obj(w2)
+                if isinstance(w, InterpolatedWaveform) and isinstance(w2, InterpolatedWaveform) and not same_cfg(w, w2):
+                    orc.bad("scale:interpolator-config", f"{k}: interpolator configuration changed: {obj_cfg(w)} -> {obj_cfg(w2)}")
                 f2 = orc.waveform(w2, k)
                 if type(w2) is not type(w) or w2.duration != d:
                     orc.bad("scale:class-or-duration", f"{k}: {type(w).__name__}({d}) became {type(w2).__name__}({w2.duration})")
@@ -442,6 +491,7 @@ def run_wf_case(case, env: Env, orc: Oracle):
                         orc.bad("scale:samples:" + k, f"{k} by {op[1] if len(op) > 1 else -1}: samples are not the scaled samples (max dev {np.max(np.abs(s2 - exp))})")
                 r = [0, wf_full(w2)]
             elif k == "chdur":
+                env.expect_interp(case["wf"], new_dur=op[1])
                 w2 = w.change_duration(pydur(op[1]))
                 env.add_obj(w2)
                 orc.waveform(w2, "chdur")
@@ -454,6 +504,21 @@ def run_wf_case(case, env: Env, orc: Oracle):
                     a[1] = b[1] = 0
                     if a != b:
                         orc.bad("change-duration:parameters", f"defining parameters changed: {a} -> {b}")
+                    elif isinstance(w, InterpolatedWaveform) and not same_cfg(w, w2):
+                        orc.bad("change-duration:parameters", f"interpolator configuration changed: {obj_cfg(w)} -> {obj_cfg(w2)}")
+                    # the result is the waveform one gets by building the class from
+                    # the same defining parameters at the new duration
+                    W2 = list(case["wf"])
+                    W2[1] = op[1]
+                    ref = build(W2)
+                    sr, s2 = arr(ref), arr(w2)
+                    same = len(sr) == len(s2) and (
+                        bool(np.allclose(s2, sr, rtol=1e-9, atol=1e-9, equal_nan=True))
+                        if has_interp(w)
+                        else bool(np.array_equal(s2, sr, equal_nan=True))
+                    )
+                    if not same:
+                        orc.bad("change-duration:differs-from-rebuilt", f"change_duration({op[1]}) is not {type(w).__name__} rebuilt with the same defining parameters")
                 r = [0, wf_full(w2)]
             elif k == "eq":
                 o = build(op[1])
@@ -495,6 +560,21 @@ def run_wf_case(case, env: Env, orc: Oracle):
                 orc.bad(f"op-raises:{k}:{type(e).__name__}", f"{k}{op[1:]} raised {type(e).__name__}: {e}")
         out.append(r)
     return out, w
+
+
+def same_cfg(w1, w2) -> bool:
+    a, b = obj_cfg(w1), obj_cfg(w2)
+    if set(a) != set(b):
+        return False
+    for k in a:
+        x, y = a[k], b[k]
+        try:
+            if not bool(np.all(np.asarray(x) == np.asarray(y))):
+                return False
+        except Exception:  # noqa: BLE001
+            if x is not y:
+                return False
+    return True
 
 
 def has_interp(w) -> bool:
